@@ -26,6 +26,9 @@ def check(ctx):
 
     priority_rules(ctx)
     rest(ctx)
+    from .common import cache_foundation, language_foundation
+    language_foundation(ctx)
+    cache_foundation(ctx)
 
 
 def priority_rules(ctx):
